@@ -451,6 +451,9 @@ def run_scenario(sc, strategy, max_steps=20000):
 
     with w.patch:
         io = w.make_io()
+        for k in range(sc.get('oneshot', 0)):       # one-shot callbacks (return False: cleared after their first run),
+            #                                        registered BEFORE the permanent ones
+            io.registerReconnectCallback(f'once{k}', (lambda k=k: (s.log(ev='callback', name=f'once{k}'), False)[1]))
         for k in range(sc.get('callbacks', 0)):
             io.registerReconnectCallback(f'cb{k}', (lambda k=k: (s.log(ev='callback', name=f'cb{k}'), True)[1]))
 
